@@ -27,7 +27,7 @@ MAX_BLOCKS = 400
 MAX_DEPTH = 4
 MODELS_ON = True
 THREAD_ALL = True
-MAX_AGE = 10
+MAX_AGE = 24
 LOG_MACROS = ("|m:debug", "|m:info", "|m:warn", "|m:error", "|m:trace", "|m:instrument", "|m:event", "|m:span", "|m:tracing", "|m:log", "|m:debug_span", "|m:info_span", "|m:warn_span", "|m:error_span", "|m:trace_span", "|m:enabled")
 PRESERVING = ("map", "map_err", "copied", "cloned", "as_ref", "as_mut", "as_deref", "as_deref_mut", "inspect", "inspect_err")
 
@@ -643,6 +643,17 @@ def _relevant(j):
                     if src is not None and src not in rel:
                         rel.add(src)
                         changed = True
+                    # `x = move (t.i)` with x relevant: field i of tuple t is relevant
+                    if r["k"] == "use" and r["o"].get("k") in ("copy", "move") and len(r["o"]["p"]["pr"]) == 1 and isinstance(r["o"]["p"]["pr"][0], dict) and "f" in r["o"]["p"]["pr"][0]:
+                        key_ = ("T", r["o"]["p"]["l"], r["o"]["p"]["pr"][0]["f"])
+                        if key_ not in rel:
+                            rel.add(key_)
+                            changed = True
+                if s["k"] == "assign" and not s["p"]["pr"] and s["r"]["k"] == "agg" and s["r"].get("ak") == "tuple":
+                    for i_, o_ in enumerate(s["r"].get("ops") or []):
+                        if ("T", s["p"]["l"], i_) in rel and o_.get("k") in ("copy", "move") and not o_["p"]["pr"] and o_["p"]["l"] not in rel:
+                            rel.add(o_["p"]["l"])
+                            changed = True
             t = blk["t"]
             if t["k"] == "call" and not t["d"]["pr"] and t["d"]["l"] in rel and len(t["args"]) == 1:
                 fn = (t["f"].get("fn") or {}) if t["f"].get("k") == "const" else {}
@@ -700,6 +711,29 @@ def _step_block(j, blk, st, esc, rel=None):
             continue
         l = p["l"]
         val = None
+        for key_ in [k_ for k_ in st if isinstance(k_, tuple) and k_[1] == l]:
+            st.pop(key_, None)
+        # a tuple of known values (`(Err(e), ControlFlow::Break(()))`): the facts travel with the fields
+        if r["k"] == "agg" and r.get("ak") == "tuple" and l not in esc:
+            for i_, o_ in enumerate(r.get("ops") or []):
+                if o_.get("k") in ("copy", "move") and not o_["p"]["pr"] and o_["p"]["l"] in st and (rel is None or ("T", l, i_) in rel):
+                    st[("T", l, i_)] = st[o_["p"]["l"]]
+                    if o_["k"] == "move":
+                        st.pop(o_["p"]["l"], None)
+            st.pop(l, None)
+            continue
+        if r["k"] == "use" and r["o"].get("k") in ("copy", "move") and len(r["o"]["p"]["pr"]) == 1 and isinstance(r["o"]["p"]["pr"][0], dict) \
+                and "f" in r["o"]["p"]["pr"][0] and ("T", r["o"]["p"]["l"], r["o"]["p"]["pr"][0]["f"]) in st and l not in esc and (rel is None or l in rel):
+            key_ = ("T", r["o"]["p"]["l"], r["o"]["p"]["pr"][0]["f"])
+            st[l] = st[key_]
+            if l == 0 and st[l][0] in (RESULT, OPTION, CFLOW):
+                vmap = {(RESULT, 0): "Ok", (RESULT, 1): "Err", (OPTION, 0): "None", (OPTION, 1): "Some", (CFLOW, 0): "Continue", (CFLOW, 1): "Break"}
+                if new_stmts is None:
+                    new_stmts = list(stmts)
+                new_stmts[si] = dict(s, r={"k": "agg", "ak": "adt", "adt": st[l][0], "variant": vmap[(st[l][0], st[l][1])], "vi": st[l][1], "fields": ["0"], "ops": [r["o"]], "thr": True})
+            if r["o"]["k"] == "move":
+                st.pop(key_, None)
+            continue
         if l not in esc and (rel is None or l in rel):
             if r["k"] == "agg" and r.get("ak") == "adt" and r.get("adt") in (RESULT, OPTION, CFLOW) and _is_seed(blk, s):
                 val = (r["adt"], r["vi"])
@@ -708,9 +742,9 @@ def _step_block(j, blk, st, esc, rel=None):
             elif r["k"] == "use" and r["o"].get("k") in ("copy", "move") and not r["o"]["p"]["pr"] and r["o"]["p"]["l"] in st:
                 q = r["o"]["p"]["l"]
                 val = st[q]
-                if l == 0 and val[0] in (RESULT, OPTION):
+                if l == 0 and val[0] in (RESULT, OPTION, CFLOW):
                     # the value handed back is known to be this variant on this path
-                    vn = {(RESULT, 0): "Ok", (RESULT, 1): "Err", (OPTION, 0): "None", (OPTION, 1): "Some"}[(val[0], val[1])]
+                    vn = {(RESULT, 0): "Ok", (RESULT, 1): "Err", (OPTION, 0): "None", (OPTION, 1): "Some", (CFLOW, 0): "Continue", (CFLOW, 1): "Break"}[(val[0], val[1])]
                     if new_stmts is None:
                         new_stmts = list(stmts)
                     new_stmts[si] = dict(s, r={"k": "agg", "ak": "adt", "adt": val[0], "variant": vn, "vi": val[1], "fields": ["0"], "ops": [r["o"]], "thr": True})
@@ -733,10 +767,12 @@ def _step_block(j, blk, st, esc, rel=None):
             v = st[o["p"]["l"]][1]
             tm = {str(a): tb for a, tb in t["ts"]}
             nxt = tm.get(str(v), t["else"])
+            st.pop(o["p"]["l"], None)
             if _SEED_ALL[0]:
-                st = {}     # one resolution per set of facts: the copies end here
-            else:
-                st.pop(o["p"]["l"], None)
+                # one resolution per value: facts about the same value under other names go as well; unrelated
+                # facts (the second half of a `(reply, flow)` pair) stay and age
+                for k_ in [k_ for k_, v_ in st.items() if v_[0] in ("discr", "bool")]:
+                    st.pop(k_, None)
     elif t["k"] == "call":
         for a in t["args"]:
             if a.get("k") == "move" and not a["p"]["pr"]:
